@@ -159,7 +159,7 @@ func specPlain4(p *packets.FrameParser) bool {
 //@ modifies nothing
 
 //@ func (*tcpDriver).SendProbe
-//@ safety C06 C05 C11
+//@ safety C06 C05 C11 C19
 //@ requires[pre.nonnil]   t != nil && t.sink != nil && t.config != nil && t.config.buffer != nil
 //@ requires[C10.send.open]  selb(isOpen, ref(t.sink))
 //@ requires[pre.past]     forall(k, 0, len(t.sentProbes), t.sentProbes[k].sendTime <= now() && t.sentProbes[k].sendTime != 0)
